@@ -68,9 +68,14 @@ class Unit:
         return weave.strip_attrs(self.src.find_const(mod, name)).strip()
 
     def real_fn(self, mod, impl, name, contract, *, vis=None, tail=None, ghost=(), invariants=None,
-                before_returns=None, ret='ret', rename=None, body_edit=None):
+                before_returns=None, ret='ret', rename=None, body_edit=None, subst=()):
         """emit the real function with `contract` woven in. ghost: list of (anchor_re, text, where, occurrence)."""
         sig, body = self.slice_fn(mod, impl, name)
+        for a, b in subst:     # R6: associated types / trait paths -> the unit's concrete names
+            if a in sig or a in body:
+                self.rewrites['R6'] = self.rewrites.get('R6', 0) + sig.count(a) + body.count(a)
+            sig = sig.replace(a, b)
+            body = body.replace(a, b)
         sig, named = weave.name_ret(sig, ret)
         if named:
             self.rewrites['R7'] = self.rewrites.get('R7', 0) + 1
@@ -92,7 +97,7 @@ class Unit:
         if before_returns:
             body = weave.insert_before_returns(body, before_returns)
         if tail:
-            body = weave.insert_tail(body, tail)
+            body = weave.insert_tail(body, tail, unit_ret=not named)
         key = f"{mod}|{impl}|{name}"
         self.functions.append(key)
         return f"{sig}\n{contract}\n{body}\n"
@@ -111,11 +116,12 @@ class Unit:
 
     def lemma_files(self, nbins=12):
         """[(suffix, text)]: lemma proofs bin-packed by size; every file is self-contained"""
-        if not self.lemmas:
+        todo = [l for l in self.lemmas if l.get('body')]
+        if not todo:
             return []
-        bins = [[] for _ in range(min(nbins, len(self.lemmas)))]
+        bins = [[] for _ in range(min(nbins, len(todo)))]
         sizes = [0] * len(bins)
-        for l in sorted(self.lemmas, key=lambda l: -len(l['body'])):
+        for l in sorted(todo, key=lambda l: -len(l['body'])):
             i = sizes.index(min(sizes))
             bins[i].append(l)
             sizes[i] += len(l['body']) + len(l['head'])
